@@ -65,9 +65,87 @@ def table_of(c, cls_all, depth=0):
     return rows
 
 
+def descriptor_of(c, fld):
+    for k in c.__mro__:
+        if fld in k.__dict__:
+            return k.__dict__[fld]
+    return None
+
+
+def descriptors(cls_all=None):
+    """every fixed-width descriptor-backed field of every element class:
+    {'Class.FIELD': {'kind': 'str'|'enum'|'int'|'raw', 'width': descriptor width, 'render_width': width used by to_bytes,
+                     'values': [...], 'default': str|None, 'binary': struct format or None}}"""
+    from sarpy.io.general.nitf_elements import base as B
+    cls_all = cls_all or classes()
+    out = {}
+    for n, c in sorted(cls_all.items()):
+        if not issubclass(c, B.NITFElement):
+            continue
+        for fld in c._ordering:
+            d = descriptor_of(c, fld)
+            if not isinstance(d, B._BasicDescriptor) or d.length is None:
+                continue
+            if isinstance(d, B._StringEnumDescriptor):
+                kind = 'enum'
+            elif isinstance(d, B._StringDescriptor):
+                kind = 'str'
+            elif isinstance(d, B._IntegerDescriptor):
+                kind = 'int'
+            elif isinstance(d, B._RawDescriptor):
+                kind = 'raw'
+            else:
+                continue
+            out[f'{n}.{fld}'] = {'class': n, 'field': fld, 'kind': kind, 'width': int(d.length), 'render_width': c._lengths.get(fld),
+                                 'values': sorted(d.values) if kind == 'enum' else None,
+                                 'default': d._default_value if kind == 'enum' else None,
+                                 'binary': getattr(c, '_binary_format', {}).get(fld)}
+    return out
+
+
+def _blit(s):
+    return '[' + ', '.join(str(b) for b in s.encode('utf-8')) + ']'
+
+
+def lean_desc(d):
+    if d['kind'] == 'enum':
+        dv = 'none' if d['default'] is None else f'(some {_blit(d["default"])})'
+        return f'(.enum {d["width"]} [{", ".join(_blit(v) for v in d["values"])}] {dv})'
+    return f'(.{d["kind"]} {d["width"]})'
+
+
+def generate_descs(path, cls_all):
+    """Gen/NitfDescs.lean: the descriptors of the current tree as `Spec.NitfAssign.Desc`, their well-formedness decided by the kernel,
+    and the assignment theorems of Props/C13a.lean instantiated on all of them"""
+    descs = descriptors(cls_all)
+    lines = ['-- GENERATED by translate/tables_nitf.py from /repo (do not edit; regenerated on every check run)',
+             'import SarpyModel.Props.C13a', 'namespace Sarpy.Gen.NitfDescs', 'open Sarpy.Spec.FieldFmt Sarpy.Spec.NitfAssign', '',
+             'def descs : List (String × Desc) := [']
+    lines.append(',\n'.join(f'  ("{k}", {lean_desc(d)})' for k, d in descs.items()))
+    lines += [']', '',
+              '/-- every enumerated value and default of the current classes fits its field (kernel-decided) -/',
+              'theorem descs_wf : descs.all (fun d => wfDesc d.2) = true := by decide +kernel',
+              '',
+              '/-- for every descriptor of the current tree and every assigned input: what is stored renders to exactly the declared width,',
+              '    and the bytes of the neighbouring field are left alone -/',
+              'theorem descs_renderable : ∀ d ∈ descs, ∀ (x : Input) (v : Stored), assign d.2 x = some v →',
+              '    (render d.2 v).length = d.2.width ∧ ∀ next : Bytes, (render d.2 v ++ next).drop d.2.width = next := by',
+              '  intro d hd x v ha',
+              '  have hw := List.all_eq_true.mp descs_wf d hd',
+              '  exact ⟨Sarpy.Props.C13a.assign_renderable hw ha, fun next => (Sarpy.Props.C13a.assign_never_overflows hw ha next).2⟩',
+              '', 'end Sarpy.Gen.NitfDescs']
+    text = '\n'.join(lines) + '\n'
+    old = open(path).read() if os.path.exists(path) else None
+    if old != text:
+        with open(path, 'w') as f:
+            f.write(text)
+    return descs
+
+
 def generate(path):
     from sarpy.io.general.nitf_elements import base as B
     cls_all = classes()
+    descs = generate_descs(os.path.join(os.path.dirname(path), 'NitfDescs.lean'), cls_all)
     tables = {}
     ovr = {}
     loops = {}
@@ -102,7 +180,7 @@ def generate(path):
     if old != text:
         with open(path, 'w') as f:
             f.write(text)
-    return {'tables': tables, 'overrides': ovr, 'loops': loops, 'changed': old != text}
+    return {'tables': tables, 'overrides': ovr, 'loops': loops, 'changed': old != text, 'descriptors': descs}
 
 
 if __name__ == '__main__':
